@@ -25,7 +25,7 @@ func syncScenarios(r *mon.Run, label string) []Scenario {
 	idx := 0
 	for a := 0; a <= maxLen; a++ {
 		for b := 0; b <= maxLen; b++ {
-			for variant := 0; variant < 6; variant++ {
+			for variant := 0; variant < 9; variant++ {
 				for _, peers := range []bool{false, true} {
 					if !r.Thorough() {
 						// quick: variants 0 and 1 everywhere, 2 and 3 on a diagonal sample
@@ -39,7 +39,10 @@ func syncScenarios(r *mon.Run, label string) []Scenario {
 							continue
 						}
 					}
-					if peers && variant == 0 {
+					if peers && (variant == 0 || variant >= 6) {
+						continue
+					}
+					if variant >= 6 && !r.Thorough() && (a+b)%2 != 0 {
 						continue
 					}
 					idx++
@@ -82,6 +85,16 @@ func runSyncCheck(prop, monitor, tier, replay string) int {
 		scs = []Scenario{rep.Case}
 	} else {
 		scs = syncScenarios(r, "sync")
+		if monitor == "converge" {
+			// schedules that end in a state that cannot be synchronised (diverged identities) belong to the pull monitor only
+			kept := scs[:0]
+			for _, sc := range scs {
+				if !sc.SkipSync {
+					kept = append(kept, sc)
+				}
+			}
+			scs = kept
+		}
 	}
 	outcomes := runBatches[Scenario, ScenarioResult]("", "sync", scs, 6, 30*time.Second, nil)
 	for i, oc := range outcomes {
